@@ -56,6 +56,17 @@ let role_ x = match atom x with "obj" -> RObj | "con" -> RCon | "unused" -> RUnu
 let mval_ x = match x with A "nan" -> VNaN | v -> VNum (bigq_ v)
 let w_mval = function VNaN -> A "nan" | VNum q -> w_bigq q
 
+let cnode_ x = match lst x with
+  | [l; m; r] -> { c_list = opt_ (list_ nat_) l; c_min = nat_ m; c_rep = bool_ r }
+  | _ -> failwith "cnode"
+let settings_ x = match lst x with
+  | [src; tgt; ex; par] -> { s_src = list_ cnode_ src; s_tgt = list_ cnode_ tgt; s_excl = list_ (pair_ nat_ nat_) ex; s_par = opt_ nat_ par }
+  | _ -> failwith "settings"
+let existence_ x = match lst x with
+  | [a; b] -> { x_src = list_ (opt_ (list_ nat_)) a; x_tgt = list_ (opt_ (list_ nat_)) b }
+  | _ -> failwith "existence"
+let w_matrix m = w_list (w_list w_nat) m
+
 let dispatch (cmd : string) (args : sx list) : sx =
   match cmd, args with
   | "valid_idx_rows", [t; p; rows] ->
@@ -90,6 +101,11 @@ let dispatch (cmd : string) (args : sx list) : sx =
   | "evaluate", [ms; rs; inst; vals] ->
       let ((o, c), mv) = evaluate (list_ metric_ ms) (list_ (pair_ n_ role_) rs) (list_ n_ inst) (list_ (pair_ n_ mval_) vals) in
       L [w_list w_mval o; w_list w_mval c; w_list (w_pair w_n w_mval) mv]
+  | "enum_M", [st; e] -> w_list w_matrix (enum_M (settings_ st) (existence_ e))
+  | "count_M", [st; e] -> w_nat (count_M (settings_ st) (existence_ e))
+  | "validate_M", [st; e; ms] -> let st = settings_ st and e = existence_ e in
+      w_list (fun m -> w_bool (validate st e (list_ (list_ nat_) m))) (lst ms)
+  | "max_conn_mat", [st; e] -> w_matrix (max_conn_mat (settings_ st) (existence_ e))
   | _ -> Dispatch2.dispatch cmd args
 
 let () =
